@@ -62,7 +62,7 @@ def run_mc(module: str, cfg: str, workers: int = 16, timeout: int = 3600, covera
         res["depth"] = int(d.group(1))
     acts: Dict[str, int] = {}
     for a in _COV.finditer(out):
-        acts[a.group(1)] = max(acts.get(a.group(1), 0), int(a.group(4)))
+        acts[a.group(1)] = max(acts.get(a.group(1), 0), int(a.group(4)), int(a.group(5)))   # distinct : taken
     res["actions"] = acts
     v = _VIOL.search(out)
     res["violated"] = v.group(1) if v else None
@@ -156,3 +156,22 @@ def enumerate_cases(module: str, cfg: str, timeout: int = 1800, env: Optional[Di
     st = _STATS.search(out)
     stats = {"generated": int(st.group(1)), "distinct": int(st.group(2))} if st else {}
     return cases, stats
+
+
+def simulate_cases(module: str, cfg: str, num: int, depth: int, seed: int, timeout: int = 1800,
+                   env: Optional[Dict[str, str]] = None) -> List[Any]:
+    """Random behaviours of a spec (`tlc -simulate`); the spec prints one `@@E <json>` history per behaviour."""
+    meta = tempfile.mkdtemp(prefix="tlcs-", dir=_scratch())
+    try:
+        rc, out = _java(["-workers", "1", "-metadir", meta, "-noGenerateSpecTE", "-simulate", f"num={num}", "-depth", str(depth),
+                         "-seed", str(seed), "-config", cfg, module + ".tla"], env or {}, timeout)
+    finally:
+        shutil.rmtree(meta, ignore_errors=True)
+    if rc != 0 and "Error:" in out:
+        raise TLCError(f"TLC failed simulating {module}/{cfg} (rc={rc})\n" + _tail(out, 40))
+    cases = []
+    for line in out.splitlines():
+        m = _ELINE.match(line.strip())
+        if m:
+            cases.append(json.loads(m.group(1).encode().decode("unicode_escape")))
+    return cases
